@@ -75,6 +75,17 @@ theorem deliver_simulation (c c' : Cl) (h : Sim c c') (e : Ev) (nx : Nat)
     (hb : winsAt c e = true → isBetter c' (epochOf e.path) e = true) :
     Sim (deliver c e nx).1 (deliver c' e nx).1 ∧ (deliver c' e nx).2 = (deliver c e nx).2 := sim_deliver h e nx hb
 
+/-- the one-step statement that was open: a delivery right after a restart answers and ends as without the restart,
+    for EVERY client and event, unless the uninterrupted client would roll back for it (`restart_invisible_full` minus
+    exactly the witness' situation) -/
+theorem restart_invisible_step (c : Cl) (e : Ev) (nx : Nat) (h : winsAt c e = false) :
+    (deliver (restart c).1 e nx).2 = (deliver c e nx).2 ∧ proj (deliver (restart c).1 e nx).1 = proj (deliver c e nx).1 := by
+  have := sim_deliver (sim_restart_right (Sim.refl c)) e nx (by intro hw; rw [h] at hw; cases hw)
+  exact ⟨this.2, this.1.proj⟩
+
+example : winsAt (deliver by0p cA 0).1 cB = true := by decide     -- the witness is excluded by the hypothesis …
+example : winsAt (deliver by0p cA 0).1 cA = false := by decide    -- … a re-delivery or a worse competitor is not
+
 /-- every client operation is a simulation; only a delivery that is a stale win is excluded -/
 theorem op_simulation (c c' : Cl) (h : Sim c c') (o : COp) (hs : staleWin c c' o = false) :
     Sim (rstep c o).1 (rstep c' o).1 ∧ (rstep c' o).2 = (rstep c o).2 := sim_rstep h o hs
